@@ -55,7 +55,11 @@ Inductive stmt : Type :=
 | SNew (c : ident) (x : ident) (args : list expr)    (* `C x = new C(args);` *)
 | SExpr (e : expr)                                   (* a constraint *)
 | SDisj (lbl : ident) (cs : list (list stmt))        (* `{..} or {..}`; lbl identifies the statement *)
-| SFormula (isfact : bool) (x : ident) (scope : list ident) (pred : ident) (args : list (ident * expr)).
+| SFormula (isfact : bool) (x : ident) (scope : list ident) (pred : ident) (args : list (ident * expr))
+| SAssign (path : list ident) (x : ident) (fresh : bool) (e : expr).
+                                                     (* `path.x = e;`  assignment_statement::execute does exprs.emplace(x, value) on the
+                                                        environment `path` denotes (the current one when empty): a binding when x is not yet
+                                                        bound THERE (fresh = true, known to the generator), no effect at all otherwise *)
                                                      (* `goal x = new scope.P(f: e, ...)`; pred is the qualified name *)
 
 Record pred_decl : Type := mkPred {
